@@ -4,7 +4,7 @@ From Coq Require Import String List NArith ZArith Bool.
 From J5V.lib Require Import Outcome.
 From J5V.model Require Import ReflectDesc ReflectSchema Reflect ReflectSpec.
 From J5V.gen Require ReflectGen.
-From J5V.proofs Require Import ReflectProofs ExportProofs ReflectInvProofs ReflectPathProofs ReflectFuelProofs ReflectFlattenProofs ReflectCodecProofs ReflectDeclProofs.
+From J5V.proofs Require Import ReflectProofs ExportProofs ReflectInvProofs ReflectPathProofs ReflectFuelProofs ReflectFlattenProofs ReflectCodecProofs ReflectDeclProofs ReflectClassProofs.
 From J5V.model Require Import Export ReflectDecl.
 Import ListNotations.
 
@@ -165,16 +165,30 @@ Theorem C18_reader_links_the_declared_schemas : forall D, wf_keys D -> forall fs
 Proof. exact reflect_declared. Qed.
 Print Assumptions C18_reader_links_the_declared_schemas.
 
-(* ---- cache transparency (SchemaCache.Schema), values: for any two call histories (successful and
-   failed calls, any messages, any order) the answers for one message are the SAME schema, and the
-   caches hold the same schemas for its exposed oneofs; in particular the answer of a cache with any
-   history equals the answer of a fresh cache whenever both answer. A failed call leaves the cache
-   exactly as it was (the roll-back; in the model by definition of cache_schema, on the code by the
-   shared-cache history stream), and a name already held is answered from the cache, unchanged.
-   NOT proved: that a cache with a history answers Ok exactly when a fresh cache does (class
-   transparency; needs the characterisation of the reader's acceptance by the closure of the
-   message): that half is checked per case (oracle "answer depends on earlier failed builds",
-   correspondence of the history stream) and stays partial. *)
+(* ---- cache transparency (SchemaCache.Schema), in full (hypothesis wf_keys): whatever calls were made
+   before (successful and failed, any messages, any order: [cache_reach]), the cache answers a message
+   with the schema r exactly when a fresh cache answers it with r: the same schema, or a failure in
+   both. Two halves: VALUES (the answers of two histories are the same schema: every linked entry is
+   the declared schema of its descriptor, ReflectDeclProofs) and CLASS (a message linked in one
+   reachable cache can be built from any other reachable cache that lacks it: every local check is
+   decided by the descriptors, every nested message is linked in the first cache as well, and a
+   flatten cycle found would be a cycle of the first cache; ReflectClassProofs.completion). A failed
+   call leaves the cache exactly as it was (the roll-back; in the model by definition of
+   cache_schema, on the code by the shared-cache history stream), a name already held is answered
+   from the cache, unchanged. *)
+Theorem C18_cache_transparent : forall D, wf_keys D -> forall st m r,
+  cache_reach D st -> In m (d_msgs D) ->
+  (snd (cache_schema D (size D) st m) = Ok r <-> snd (cache_schema D (size D) [] m) = Ok r).
+Proof. exact cache_transparent. Qed.
+Print Assumptions C18_cache_transparent.
+
+Theorem C18_cache_history_independent : forall D, wf_keys D -> forall st st' m r,
+  cache_reach D st -> cache_reach D st' -> In m (d_msgs D) ->
+  (snd (cache_schema D (size D) st m) = Ok r <-> snd (cache_schema D (size D) st' m) = Ok r).
+Proof. exact cache_history_independent. Qed.
+Print Assumptions C18_cache_history_independent.
+
+(* the values half on its own, with the schemas of the exposed oneofs *)
 Theorem C18_cache_answers_agree : forall D, wf_keys D -> forall st st' m r r',
   cache_reach D st -> cache_reach D st' -> In m (d_msgs D) ->
   snd (cache_schema D (size D) st m) = Ok r -> snd (cache_schema D (size D) st' m) = Ok r' ->
